@@ -70,11 +70,17 @@ impl Loader for Pe {
         for section in pe.sections {
             let file_offset = section.pointer_to_raw_data as usize;
             let file_size = section.size_of_raw_data as usize;
-            let file_bytes = self
+            let mut file_bytes = self
                 .bytes
                 .get(file_offset..(file_offset + file_size))
                 .expect("Malformed PE")
                 .to_vec();
+
+            // A section occupies VirtualSize bytes in memory; what the file does not back
+            // (uninitialised data) is zero filled.
+            if (section.virtual_size as usize) > file_bytes.len() {
+                file_bytes.resize(section.virtual_size as usize, 0);
+            }
 
             let address = section.virtual_address as u64 + pe.image_base as u64;
 
